@@ -18,6 +18,9 @@
 (*   rad_cdf is dimensionless (power 0), rad_ppf(p) scales with 2^(-e)      *)
 (*   rad_pdf = S_d(k) x density, S_1 = 2, S_2 = 2 pi k, S_3 = 4 pi k^2      *)
 (*            (in particular 0 at k = 0 for d > 1, and 2 x density for d=1) *)
+(*   a truncated power law on [low, up] is the difference of the laws on    *)
+(*   [0, up] and [0, low] weighted with up^2H, low^2H (also for the density) *)
+(*   the way the object got its parameters (assignments) is not observable  *)
 (*   ppf(cdf(k)) = k,  d cdf / dk = rad_pdf (central difference),           *)
 (*   cdf -> 1 for k -> infinity (where a cdf is offered)                    *)
 (*                                                                         *)
@@ -32,6 +35,9 @@ CONSTANTS Classes,     \* model class tokens
           Dims,        \* 1..3
           UnitExps,    \* exponents e of the length unit 2^e
           KIdx,        \* indices of the dimensionless wave number lattice (0 = origin)
+          Routes,      \* how the model object came to its parameters: "direct" construction, or another dimension /
+                       \* length scale / rescale factor first and the final value assigned afterwards
+          TPLFamily,   \* truncated power law classes with a lower truncation
           HasCdf,      \* [class -> set of dims in which spectral_rad_cdf is offered]
           HasPpf       \* [class -> set of dims in which spectral_rad_ppf is offered]
 
@@ -39,7 +45,7 @@ VARIABLES case, expect
 
 vars == <<case, expect>>
 
-Cases == [cls : Classes, d : Dims, e : UnitExps, j : KIdx]
+Cases == [cls : Classes, d : Dims, e : UnitExps, j : KIdx, route : Routes]
 
 (* exponent of the surface factor S_d(k) in k: S_d ~ k^(d-1) *)
 SurfPow(d) == d - 1
@@ -53,6 +59,8 @@ Expect(c) ==
     cdfAtOrigin |-> IF c.j = 0 THEN "zero" ELSE "in-(0,1)",
     cdfSlope    |-> IF c.j = 0 THEN "not-compared" ELSE "rad-pdf",      \* the cdf is the integral of the pdf
     cdfAtInf    |-> "one",                                              \* ... and the pdf is normalised
+    sameAs      |-> [c EXCEPT !.route = "direct"],        \* the route is not observable: values of the directly built model
+    tplParts    |-> c.cls \in TPLFamily,                 \* density of [low, up] = weighted difference of the densities of [0, up], [0, low]
     checkCdf    |-> c.d \in HasCdf[c.cls],
     checkPpf    |-> c.d \in HasPpf[c.cls] /\ c.d \in HasCdf[c.cls] ]
 
